@@ -36,6 +36,14 @@ def redeclare_xml(xml):
     return xml.replace("</types>", snip + "</types>")
 
 
+def set_sofa_arrays(cspec, views, objs):
+    """The sofa knob of the C14 scenarios: a view may carry "array", the label of the uima.cas.ByteArray object that holds
+    its sofa data (set through the public API: view.sofa_array = ...)."""
+    for i, v in enumerate(cspec["views"]):
+        if v.get("array") is not None:
+            views[i].sofa_array = objs[v["array"]]
+
+
 def sha(b):
     if isinstance(b, str):
         b = b.encode("utf-8")
@@ -81,6 +89,7 @@ def main():
         try:
             ts = scen.build_ts(cassis, sc["tspec"])
             cas, _views, _objs = scen.build_cas(cassis, ts, sc["cspec"])
+            set_sofa_arrays(sc["cspec"], _views, _objs)
         except Exception as e:  # noqa
             results.append({"build": "ERR:" + type(e).__name__ + ":" + str(e)[:100]})
             continue
